@@ -36,7 +36,7 @@ if confirmed:
     assert rc == 0
     try:
         for c in checks:
-            rc, out = sh(f"/verif/check {c}", "/verif")
+            rc, out = sh(f"LSVERIF_EVIDENCE_DIR=/verif/target/mut-evidence LSVERIF_REPLAY_DIR=/verif/target/mut-replays /verif/check {c}", "/verif")
             sigs = sorted(set(re.findall(r"signature=(\S+)", out)))
             results[c] = {"exit": rc, "signatures": sigs[:6]}
             print(f"   check {c}: exit {rc} {sigs[:3]}")
